@@ -142,6 +142,11 @@ class SweepExtractor:
     def site_ref(self, e, obj=None):
         """`psi.A[e]` -> affine site index, else None"""
         obj = obj or self.psi
+        if isinstance(e, ast.Name):
+            t = self.temps.get(e.id)
+            if t and t[0] == 'site_alias' and t[2] == obj:
+                return t[1]
+            return None
         b = pmatch(f'{obj}.A[__k]', e)
         if b is None:
             return None
@@ -428,6 +433,8 @@ class SweepMachine:
         c = self.ctx()
         st = st.copy()
         self.counts['stores'] += 1
+        for nm_ in [n_ for n_, t_ in self.x.temps.items() if t_ and t_[0] == 'site_alias']:
+            del self.x.temps[nm_]           # a site tensor changes: local names for site tensors are stale
         try:
             st.hi = amin(st.hi, k, c)
             st.lo = amax(st.lo, k, c)
@@ -551,6 +558,9 @@ class SweepMachine:
             elif x.site_ref(value, self.ham) is not None:
                 kk = x.site_ref(value, self.ham)
                 x.temps[nm] = ('merged_op', kk, kk)
+            elif isinstance(value, ast.Subscript) and x.site_ref(value) is not None:
+                # a local name for the current tensor of a site (valid until a site tensor is written)
+                x.temps[nm] = ('site_alias', x.site_ref(value), self.psi)
             elif isinstance(value, (ast.BinOp, ast.Name, ast.Constant)) and nm not in x.temps:
                 a_ = try_affine(value, x.env_affine())
                 known = {'L'} | {v_ for v_, _, _ in self.loops}
